@@ -55,6 +55,8 @@ class Engine:
         self.call_stack = []
         self.log = log
         self.summary_mode = None
+        from .models import iters as _it
+        _it._ENGINE[0] = self
         self._index()
 
     # ------------------------------------------------------------------ indexing
@@ -78,15 +80,15 @@ class Engine:
                         m = re.search(r'\{(async (?:fn body|block|closure)[^}]*|coroutine@[^}]*)\}', f.local_ty[f.params[0]])
                         if m: self.closure_by_span.setdefault(m.group(1), f)
                 continue
-            m = re.search(r'<impl at (src/[\w/]+\.rs):(\d+):\d+: \d+:\d+>::(\w+)$', n)
+            m = re.search(r'<impl at (src/[\w/]+\.rs):(\d+):(\d+): \d+:\d+>::(\w+)$', n)
             if m:
-                key = (m.group(1), int(m.group(2)))
+                key = (m.group(1), int(m.group(2)), int(m.group(3)))
                 if key not in hdr_cache: hdr_cache[key] = self.src.impl_header(*key)
                 h = hdr_cache[key]
                 if h:
-                    ty, trait, targs = h
-                    self.by_impl[(ty, trait, m.group(3))].append(f)
-                    self.impl_of[n] = (ty, trait, targs)
+                    ty, trait, targs, selfty = h
+                    self.by_impl[(ty, trait, m.group(4))].append(f)
+                    self.impl_of[n] = (ty, trait, targs, selfty)
         self.derived = set()
         for n, f in self.mir.funcs.items():
             m = re.search(r'<impl at (src/[\w/]+\.rs):(\d+):(\d+): \d+:\d+>::(\w+)$', n)
@@ -102,7 +104,7 @@ class Engine:
                 if sm: ty = sm.group(1); break
             if ty is None: continue
             self.by_impl[(ty, tm.group(1), m.group(4))].append(f)
-            self.impl_of[n] = (ty, tm.group(1), '')
+            self.impl_of[n] = (ty, tm.group(1), '', ty)
             self.derived.add(n)
         self.drop_types = set(ty for (ty, trait, meth) in self.by_impl if trait == 'Drop' and meth == 'drop')
 
@@ -116,7 +118,7 @@ class Engine:
         return c[0]
 
     def find_free_fn(self, path):
-        c = [f for n, f in self.mir.funcs.items() if n == path or n.endswith('::' + path)]
+        c = [f for n, f in self.mir.funcs.items() if n == path or n.endswith('::' + path) or path.endswith('::' + n)]
         if len(c) != 1: raise KeyError('free function %s: %d candidates' % (path, len(c)))
         return c[0]
 
@@ -263,6 +265,8 @@ class Engine:
             if p[1][0] == 'downcast' and isinstance(p[1][2], int) and isinstance(v, Struct) and v.name == 'coroutine':
                 store = v.f[-2].v.data.setdefault('vars', {})
                 return store.setdefault((p[1][2], p[2]), Cell())
+            if isinstance(v, Ref) and v.kind in ('Box', 'Arc') and p[2] == 0:
+                return Cell(v)        # Box<T> internals (Unique / NonNull / pointer): all stand for the same pointer
             if isinstance(v, (Struct, Enum)):
                 try: return v.f[p[2]]
                 except IndexError:
@@ -373,8 +377,20 @@ class Engine:
         # function item or other path
         return FnItem(c)
 
+    def zst_value(self, ty):
+        """value of a never-assigned local of zero-sized type (rustc emits no assignment for those)"""
+        tn = strip_generics(re.sub(r'<.*>$', '', ty.strip(), flags=re.S)).split('::')[-1]
+        if tn in self.src.structs and not self.src.structs[tn]: return Struct(tn, [])
+        if ty.strip() == '()': return mk_unit()
+        return None
+
     def operand(self, f, fr, op):
         k = op[0]
+        if k in ('copy', 'move') and op[1][0] == 'local':
+            c = fr.get(op[1][1])
+            if c is None or c.v is None:
+                z = self.zst_value(f.local_ty.get(op[1][1], ''))
+                if z is not None: return z
         if k == 'copy':
             v = self.place_cell(fr, op[1]).v
             if isinstance(v, (Struct, Enum)): v = clone(v)
@@ -508,6 +524,7 @@ class Engine:
         if k == 'ref':
             p = rv[1]
             c = self.place_cell(fr, p)
+            if c.v is None and p[0] == 'local': c.v = self.zst_value(f.local_ty.get(p[1], ''))
             # re-borrow of a slice / str through deref keeps the slice value itself
             if p[0] == 'deref':
                 inner = self.place_cell(fr, p[1]).v
@@ -630,6 +647,9 @@ class Engine:
             if fs:
                 if len(fs) == 1: return ('func', fs[0])
                 return ('overload', fs, trait, meth)
+            if (tyname in self.src.structs or tyname in self.src.enums) and self.by_impl.get(('*', trait, meth)):
+                fs = self.by_impl[('*', trait, meth)]
+                if len(fs) == 1: return ('func', fs[0])
             # provided (default) trait method defined on the trait itself
             cands = [f for n, f in self.mir.funcs.items() if n.endswith('::%s::%s' % (trait, meth)) or n == '%s::%s' % (trait, meth)]
             if self._is_generic_param(tyname) or ty.startswith('dyn ') or not fs:
@@ -638,6 +658,7 @@ class Engine:
         m = re.match(r'(?:[\w:]*::)?(\w+)::(\w+)$', c)
         if m:
             tyname = self.generic_env.get(m.group(1), m.group(1))
+            tyname = self.src.aliases.get(tyname, tyname) if tyname not in self.src.structs and tyname not in self.src.enums else tyname
             fs = self.by_impl.get((tyname, None, m.group(2)))
             if fs and len(fs) == 1: return ('func', fs[0])
             if fs: return ('overload', fs, None, m.group(2))
@@ -689,8 +710,12 @@ class Engine:
             if isinstance(recv, PyObj): return recv.mir_call(self, trait, meth, args)
             tn = self.type_name_of(recv) if recv is not None else None
             if tn:
-                fs = self.by_impl.get((tn, trait, meth))
+                fs = self.by_impl.get((tn, trait, meth)) or self.by_impl.get(('*', trait, meth))
                 if fs and len(fs) == 1: return self.run_func(fs[0], args)
+                if fs and tn == 'Vec':
+                    d = vec_depth(recv)
+                    pick = [g for g in fs if self.impl_of[g.name][3].count('Vec<') == d]
+                    if d and len(pick) == 1: return self.run_func(pick[0], args)
             if not args or tn is None:
                 m = re.match(r'<(.+?) as ', strip_generics(callee))
                 tname = m.group(1).strip() if m else None
@@ -975,6 +1000,16 @@ class Engine:
             if k == 'unreachable': raise Panic('entered unreachable code in ' + f.name)
             if k == 'resume': raise Panic('unwind resume in ' + f.name)
             raise Unmodelled('terminator %r' % (t,))
+
+
+def vec_depth(v):
+    v = un(v); d = 0
+    while isinstance(v, (RVec, SliceRef)):
+        d += 1
+        cells = v.cells if isinstance(v, RVec) else v.vec.cells
+        if not cells: return 0
+        v = un(cells[0].v)
+    return d
 
 
 _STD_PREFIX = re.compile(r'\b(?:std|core|alloc)::((?:[a-z_0-9]+::(?!<))*)(?=(.))')
